@@ -4,6 +4,7 @@ package rt
 
 import (
 	"fmt"
+	"os"
 	"runtime"
 	"strings"
 	"testing"
@@ -65,7 +66,11 @@ func Bubble(t *testing.T, f func()) (res BubbleResult) {
 	case <-time.After(StuckAfter):
 		// The goroutines of the bubble stay behind; the caller must not start
 		// another run in this process.
-		return BubbleResult{Stuck: true, Stacks: AllStacks()}
+		st := AllStacks()
+		if p := os.Getenv("VSIM_STUCK_DUMP"); p != "" {
+			os.WriteFile(fmt.Sprintf("%s.%d", p, os.Getpid()), []byte(st), 0o644)
+		}
+		return BubbleResult{Stuck: true, Stacks: st}
 	}
 	return res
 }
